@@ -189,8 +189,9 @@ func (m *Module) Definition(ident string) Definition {
 	if x, found := m.dataDefsIndex[ident]; found {
 		return x
 	}
-	
-	return nil
+	// not everything inside a choice is in the index: members of a choice nested
+	// in a case and members a case receives from a uses
+	return findInChoices(m.dataDefs, ident)
 }
 
 func (m *Module) Config() bool {
@@ -586,8 +587,9 @@ func (m *ChoiceCase) Definition(ident string) Definition {
 	if x, found := m.dataDefsIndex[ident]; found {
 		return x
 	}
-	
-	return nil
+	// not everything inside a choice is in the index: members of a choice nested
+	// in a case and members a case receives from a uses
+	return findInChoices(m.dataDefs, ident)
 }
 
 func (m *ChoiceCase) Config() bool {
@@ -880,8 +882,9 @@ func (m *Container) Definition(ident string) Definition {
 	if x, found := m.dataDefsIndex[ident]; found {
 		return x
 	}
-	
-	return nil
+	// not everything inside a choice is in the index: members of a choice nested
+	// in a case and members a case receives from a uses
+	return findInChoices(m.dataDefs, ident)
 }
 
 func (m *Container) Config() bool {
@@ -1176,8 +1179,9 @@ func (m *List) Definition(ident string) Definition {
 	if x, found := m.dataDefsIndex[ident]; found {
 		return x
 	}
-	
-	return nil
+	// not everything inside a choice is in the index: members of a choice nested
+	// in a case and members a case receives from a uses
+	return findInChoices(m.dataDefs, ident)
 }
 
 func (m *List) Config() bool {
@@ -2017,8 +2021,9 @@ func (m *Grouping) Definition(ident string) Definition {
 	if x, found := m.dataDefsIndex[ident]; found {
 		return x
 	}
-	
-	return nil
+	// not everything inside a choice is in the index: members of a choice nested
+	// in a case and members a case receives from a uses
+	return findInChoices(m.dataDefs, ident)
 }
 
 func (m *Grouping) getOriginalParent() Definition {
@@ -2462,8 +2467,9 @@ func (m *RpcInput) Definition(ident string) Definition {
 	if x, found := m.dataDefsIndex[ident]; found {
 		return x
 	}
-	
-	return nil
+	// not everything inside a choice is in the index: members of a choice nested
+	// in a case and members a case receives from a uses
+	return findInChoices(m.dataDefs, ident)
 }
 
 func (m *RpcInput) getOriginalParent() Definition {
@@ -2640,8 +2646,9 @@ func (m *RpcOutput) Definition(ident string) Definition {
 	if x, found := m.dataDefsIndex[ident]; found {
 		return x
 	}
-	
-	return nil
+	// not everything inside a choice is in the index: members of a choice nested
+	// in a case and members a case receives from a uses
+	return findInChoices(m.dataDefs, ident)
 }
 
 func (m *RpcOutput) getOriginalParent() Definition {
@@ -2925,8 +2932,9 @@ func (m *Notification) Definition(ident string) Definition {
 	if x, found := m.dataDefsIndex[ident]; found {
 		return x
 	}
-	
-	return nil
+	// not everything inside a choice is in the index: members of a choice nested
+	// in a case and members a case receives from a uses
+	return findInChoices(m.dataDefs, ident)
 }
 
 func (m *Notification) getOriginalParent() Definition {
@@ -3215,8 +3223,9 @@ func (m *Augment) Definition(ident string) Definition {
 	if x, found := m.dataDefsIndex[ident]; found {
 		return x
 	}
-	
-	return nil
+	// not everything inside a choice is in the index: members of a choice nested
+	// in a case and members a case receives from a uses
+	return findInChoices(m.dataDefs, ident)
 }
 
 func (m *Augment) getOriginalParent() Definition {
@@ -4186,8 +4195,9 @@ func (m *Extension) Definition(ident string) Definition {
 	if x, found := m.dataDefsIndex[ident]; found {
 		return x
 	}
-	
-	return nil
+	// not everything inside a choice is in the index: members of a choice nested
+	// in a case and members a case receives from a uses
+	return findInChoices(m.dataDefs, ident)
 }
 
 func (m *Extension) clone(parent Meta) interface{} {
